@@ -217,6 +217,44 @@ def pair_batch(acc, batch, symlinked=False):
                     run_case(acc, wd, tdefs, order, dict(kind="pair", **(dict(symlinked=True) if symlinked else {}), ko=min(ko, 3) if ko in (3, 4, 5) else "rel", ki=min(ki, 3) if ki in (3, 4, 5) else "rel"), case)
 
 
+def root_batch(acc, batch):
+    """A target whose working directory is the file-system root (or resolves to it): `x` there is `/x`, whatever way the other side
+    spells it. Nothing on disk is touched (every path 'exists' for the graph builder)."""
+    for wd_a, sp_out, wd_b, sp_in, order in batch:
+        fname = "gwf_mc_rootfile"
+        outs = {"rel": fname, "dot": "./" + fname, "updown": "sub/../" + fname, "abs": "/" + fname}[sp_out]
+        ins = {"abs": "/" + fname, "absdot": "/./" + fname, "up": "../" + fname, "upup": "../../" + fname, "rel": fname}[sp_in]
+        real = {}
+        defs = {"A": lambda: gwfh.mk_target("A", [], [outs], working_dir=wd_a), "B": lambda: gwfh.mk_target("B", [ins], ["/gwf_mc_other"], working_dir=wd_b)}
+        for n in order:
+            real[n] = defs[n]()
+        want_in = RP.resolve(wd_b, ins, cwd="/")
+        want_out = RP.resolve(wd_a, outs, cwd="/")
+        connected = want_in == want_out
+        case = dict(kind="root", wd_a=wd_a, out=sp_out, wd_b=wd_b, inp=sp_in, order=list(order))
+        try:
+            obs = observe(real, "/")
+            got = dict(dep=obs["dependencies"]["B"], dependents=obs["dependents"]["A"], endpoints=obs["endpoints"])
+        except Exception as e:
+            got = dict(exception=f"{type(e).__name__}: {str(e)[:80]}")
+        exp = dict(dep=["A"] if connected else [], dependents=["B"] if connected else [], endpoints=["B"] if connected else ["A", "B"])
+        acc.case(key=json.dumps(case), outcome=f"root connected={connected}", sample=case, nontrivial=connected)
+        if got != exp:
+            acc.violation(sig=dict(kind="root", connected=connected), case=case, expected=exp, observed=got,
+                          msg=f"A(working_dir={wd_a!r}) produces {outs!r}, B(working_dir={wd_b!r}) consumes {ins!r} ({want_out} vs {want_in}): expected {exp}, got {got}")
+
+
+def root_items():
+    its = []
+    for wd_a in ("/", "/a/..", "/a/../", "/./"):
+        for sp_out in ("rel", "dot", "updown", "abs"):
+            for wd_b, sp_ins in (("/sub", ("abs", "absdot", "up")), ("/sub/deep", ("abs", "upup")), ("/", ("rel", "abs")), ("/a/..", ("rel",))):
+                for sp_in in sp_ins:
+                    for order in (("A", "B"), ("B", "A")):
+                        its.append((wd_a, sp_out, wd_b, sp_in, order))
+    return its
+
+
 def all_items(n):
     roles = list(itertools.product("-io", repeat=len(FILES)))
     items = []
@@ -302,6 +340,7 @@ def run(ctx):
     quick = ctx.tier == "quick"
     ctx.pmap(me, "pair_batch", pair_items(), chunk=4)
     ctx.pmap(me, "pair_batch", pair_items(), chunk=8, symlinked=True)
+    ctx.pmap(me, "root_batch", root_items(), chunk=32)
     ctx.pmap(me, "all_batch", all_items(2) + all_items(3), offsets=list(range(0, NSPELL, 2)) if quick else list(range(NSPELL)))
     if not quick:
         # four targets over the three files, one spelling rotation, every definition order
@@ -320,6 +359,9 @@ def replay(case):
     if case["kind"] == "cli":
         cli_batch(acc, [(case["f"], case["ko"], case["ki"])])
         return [v for v in acc.violations if v["case"] == case or True]
+    if case["kind"] == "root":
+        root_batch(acc, [(case["wd_a"], case["out"], case["wd_b"], case["inp"], tuple(case["order"]))])
+        return acc.violations
     wd = _wd(bool(case.get("symlinked")))
     tdefs = [dict(td, ins=[tuple(x) for x in td["ins"]], outs=[tuple(x) for x in td["outs"]]) for td in case["tdefs"]]
     run_case(acc, wd, tdefs, tuple(case["order"]), dict(kind=case["kind"]), case)
